@@ -95,6 +95,80 @@ def rand_scalar(rng):
     return s
 
 
+def rand_plain_scalar(rng, hashable_only=False):
+    k = rng.choice(["none", "bool", "int", "int", "float", "str", "str", "bytes", "uuid", "datetime", "date"])
+    if k == "none":
+        return {"k": "none"}
+    if k == "bool":
+        return {"k": "bool", "tf": rng.random() < 0.5}
+    if k == "int":
+        return VInt(rng.choice([-5, -1, 0, 1, 2, 3, 7, 12, 2000]))
+    if k == "float":
+        return VFloat(25 * rng.randrange(-4, 9))
+    if k == "str":
+        return VStr([rng.choice([A, B, C, 122]) for _ in range(rng.randrange(5))])
+    if k == "bytes":
+        return {"k": "bytes", "bs": [rng.choice([A, B]) for _ in range(rng.randrange(4))]}
+    if k == "uuid":
+        return {"k": "uuid", "ver": 4, "id": rng.randrange(2)}
+    if k == "datetime":
+        return {"k": "datetime", "dt": rng.randrange(3)}
+    return {"k": "date", "d": rng.randrange(3)}
+
+
+def rand_plain_value(rng, depth):
+    """a random value built from None, bool, int, float, str, bytes, v4 UUID, datetime, date, lists
+    and dicts, nested up to `depth` containers deep"""
+    if depth <= 0 or rng.random() < 0.3:
+        return rand_plain_scalar(rng)
+    if rng.random() < 0.5:
+        return {"k": "list", "items": [rand_plain_value(rng, depth - 1) for _ in range(rng.randrange(0, 5))]}
+    pairs = []
+    for _ in range(rng.randrange(0, 5)):
+        pairs.append({"key": rand_plain_scalar(rng), "val": rand_plain_value(rng, depth - 1)})
+    return {"k": "dict", "pairs": pairs}
+
+
+def inject(rng, v, member, as_key_ok):
+    """v with `member` put at one random position (an element, a dict value or -- when hashable -- a
+    dict key); the value itself when it has no container"""
+    import copy
+    v = copy.deepcopy(v)
+    spots = []
+
+    def walk(x):
+        if x["k"] == "list":
+            spots.append(("append", x))
+            for i, it in enumerate(x["items"]):
+                spots.append(("item", x, i))
+                walk(it)
+        elif x["k"] == "dict":
+            spots.append(("newkey", x))
+            for i, p in enumerate(x["pairs"]):
+                spots.append(("val", x, i))
+                if as_key_ok:
+                    spots.append(("key", x, i))
+                walk(p["val"])
+    walk(v)
+    if not spots:
+        return member
+    sp = rng.choice(spots)
+    if sp[0] == "append":
+        sp[1]["items"].insert(rng.randrange(len(sp[1]["items"]) + 1), member)
+    elif sp[0] == "item":
+        sp[1]["items"][sp[2]] = member
+    elif sp[0] == "val":
+        sp[1]["pairs"][sp[2]]["val"] = member
+    elif sp[0] == "key":
+        sp[1]["pairs"][sp[2]]["key"] = member
+    else:
+        if as_key_ok and rng.random() < 0.5:
+            sp[1]["pairs"].append({"key": member, "val": VInt(1)})
+        else:
+            sp[1]["pairs"].append({"key": VStr([122, 122, 122]), "val": member})
+    return v
+
+
 def _has_uns(rx):
     """constructs the generator is documented not to support (it refuses them loudly: C09)"""
     k = rx["r"]
